@@ -3,10 +3,12 @@ import os
 import random
 import re
 
-from . import common, frag, fragrun, errs, c08
+from . import common, frag, fragrun, errs, c08, zoo
 
 LEVEL = "exploration"
-RULE = ("syntactically valid programs: Frag programs as generated, with parameter/return annotations removed at random (untyped "
+RULE = ("syntactically valid programs: a zoo of constructs outside the Frag fragment (match arms of every arity, with defaults and "
+        "patterns; records incl. the empty one; collections; destructuring; classes, inheritance, traits; mutation; keyword, default "
+        "and variable arguments; many ill-typed on purpose); Frag programs as generated, with parameter/return annotations removed at random (untyped "
         "parameters), with literals swapped for literals of other types, with statements deleted (dangling names) or duplicated, and "
         "corpus files (should_ok, should_err, examples) with the same token-preserving mutations when the result still parses; the "
         "front end runs in-process on all of them (corpus mutants are a fixed seed-independent list, half of the generated programs vary with VERIF_SEED, those with swapped literals and dropped lines are a fixed list) (`vh errors`: a panic is caught and located), a sample goes through `erg check` and "
@@ -145,6 +147,14 @@ def run(ctx, rep):
         base = frag.to_erg(frag.generate(r), top=True) + "\n"
         mut = r.choice(["as-is", "untyped-params"])
         cases.append({"src": MUTS[mut](base, r), "mut": mut})
+    # construct zoo (match arms of every arity, records incl. the empty one, collections, patterns, classes, keyword/default
+    # arguments ...): a fixed list plus a seed-dependent slice
+    for i in range(ctx.n(800, 20000)):
+        src, kinds = zoo.program(f"C07:zoo:{i}")
+        cases.append({"src": src, "mut": "zoo:" + "+".join(sorted(set(kinds)))[:60]})
+    for i in range(ctx.n(150, 3000)):
+        src, kinds = zoo.program(f"C07:zoo:{ctx.seed}:{i}")
+        cases.append({"src": src, "mut": "zoo:" + "+".join(sorted(set(kinds)))[:60]})
     for f in c08.corpus_files(ctx):
         try:
             t = open(f, encoding="utf-8").read()
@@ -165,7 +175,9 @@ def run(ctx, rep):
             if judge_front(rep, c, r):
                 accepted.append(c)
     rng.shuffle(accepted)
-    cli_stage(ctx, rep, accepted[: ctx.n(60, 1500)] + [c for c in cases if c["mut"].startswith("untyped")][: ctx.n(15, 300)])
+    zoo_ok = [c for c in accepted if c["mut"].startswith("zoo:")]
+    cli_stage(ctx, rep, [c for c in accepted if not c["mut"].startswith("zoo:")][: ctx.n(30, 1200)] + zoo_ok[: ctx.n(60, 1500)]
+              + [c for c in cases if c["mut"].startswith("untyped")][: ctx.n(10, 300)])
     rep.min_evaluations = 300
 
 
